@@ -1039,6 +1039,55 @@ impl Scenario for FixedScen {
         format!("exec {} close id={}", anyone(rng), id)
     }
 
+    /// Small scope: voters p0:1, p1:1, p2:2 (total 4), p5 is a stranger, the multisig holds 2 ucosm, maximal voting
+    /// period of 2 blocks.  Op lines are fixed strings and `env` lines are absolute, so there is ONE `env` line (to the
+    /// next block; a second one would let sequences run backwards in time); proposals with `latest` = the next block
+    /// are expired after it, proposals with the default expiry (2 blocks) are still open in it, and a proposal made
+    /// after it with `latest` = that block is created already expired.
+    /// Variant 0: AbsoluteCount 2; 1: AbsolutePercentage 50 %; 2: ThresholdQuorum 50 % / 50 %.  p0 proposes (nothing,
+    /// a bank send within / beyond the balance, a re-entrant execute / vote of the proposal itself), p1 and p2 cast every kind of vote on
+    /// proposal 1, anybody executes / closes it.
+    fn small_scope(&mut self, variant: u64) -> Option<SmallScope> {
+        if self.wide {
+            return None;
+        }
+        const HALF: u128 = 500_000_000_000_000_000;
+        let thr = match variant {
+            0 => "count:2".to_string(),
+            1 => format!("pct:{HALF}"),
+            2 => format!("quorum:{HALF}:{HALF}"),
+            _ => return None,
+        };
+        let (p0, p1, p2, p3, p5) =
+            (self.pool[0].clone(), self.pool[1].clone(), self.pool[2].clone(), self.pool[3].clone(), self.pool[5].clone());
+        let (h, t) = (self.height, self.time);
+        let inst = format!("inst voters=+{p0}:1,+{p1}:1,+{p2}:2 thr={thr} maxp=h2 funds=2 funds2=0");
+        let mut al = vec![
+            format!("exec {p0} propose title=t0 desc=d0 msgs= latest=h{}", h + 1),
+            format!("exec {p0} propose title=t1 desc=d0 msgs=bank:{p3}:1:ucosm latest=-"),
+            format!("exec {p0} propose title=t4 desc=d0 msgs=bank:{p3}:3:ucosm latest=-"),
+            format!("exec {p0} propose title=t2 desc=d0 msgs=sx:1 latest=-"),
+            format!("exec {p0} propose title=t3 desc=d0 msgs=sv:1:yes latest=h{}", h + 1),
+            format!("exec {p5} propose title=t0 desc=d0 msgs= latest=-"),
+        ];
+        for v in ["yes", "no", "abstain", "veto"] {
+            al.push(format!("exec {p1} vote id=1 vote={v}"));
+        }
+        for v in ["yes", "no", "abstain", "veto"] {
+            al.push(format!("exec {p2} vote id=1 vote={v}"));
+        }
+        al.extend([
+            format!("exec {p0} vote id=1 vote=no"),
+            format!("exec {p2} vote id=2 vote=yes"),
+            format!("exec {p5} vote id=1 vote=yes"),
+            format!("exec {p0} execute id=1"),
+            format!("exec {p5} execute id=1"),
+            format!("exec {p0} close id=1"),
+            format!("env height={} time={}", h + 1, t + 5_000_000_000),
+        ]);
+        Some(SmallScope { prefix: vec![inst], alphabet: al })
+    }
+
     fn apply(&mut self, op: &str) -> Vec<String> {
         reset_call_budget();
         let a = Args::parse(op);
